@@ -121,6 +121,8 @@ impl Context<'_> {
         let mut post: Vec<(String, Slot)> = Vec::new();
         let mut constrains_state = false;
         let mut by_id: Option<ElementId> = None;
+        // Whether a value constraint went into the index filter.
+        let mut narrowed_by_index = false;
 
         let historical = self.is_historical();
         for (key, value) in matcher {
@@ -153,6 +155,7 @@ impl Context<'_> {
                 (Slot::Value(value), Some(column)) => {
                     let text = self.matcher_text(kind, key, value)?;
                     filters.push(eq_field(column, Fv::Text(text)));
+                    narrowed_by_index = true;
                 }
                 _ => post.push((key.clone(), slot)),
             }
@@ -162,10 +165,23 @@ impl Context<'_> {
         }
 
         let ids: Vec<ElementId> = match by_id {
-            // Naming an id is the narrowest possible pattern, so it skips the
-            // index entirely — but the remaining constraints still apply, or
-            // `{id: "C-1", state: "archived"}` would match an active element.
-            Some(id) => vec![id],
+            // Naming an id is the narrowest possible pattern, so on its own it
+            // skips the index entirely. Constraints that were pushed into the
+            // index still apply, or `{id: "C-1", state: "archived"}` would
+            // match an active element and `{id: "C-1", name: "Mallory"}` would
+            // match Alice: the index decides them, and the id only narrows
+            // what it answers.
+            Some(id) if !narrowed_by_index || historical => vec![id],
+            Some(id) => {
+                let mut ids = self
+                    .candidates(
+                        kind,
+                        Some(Filter::And(filters.into_iter().map(Box::new).collect())),
+                    )
+                    .await?;
+                ids.retain(|candidate| *candidate == id);
+                ids
+            }
             None => {
                 self.candidates(
                     kind,
